@@ -133,11 +133,15 @@ func init() {
 		e.extraCtx["unwindIsBug"] = args[1].(*smt.Term).IsTrue()
 		return nil
 	}
+	zzapi["zzTimers"] = func(e *Engine, args []Value, fn *ssa.Function) Value {
+		n, _ := concInt(args[0].(*smt.Term))
+		e.extraCtx["timers"] = n
+		return nil
+	}
 	zzapi["zzClockAdvance"] = func(e *Engine, args []Value, fn *ssa.Function) Value {
 		// advance the model clock by at least d nanoseconds
 		c := e.clock()
-		d := args[0].(*smt.Term)
-		c.minNext = e.ctx.Add(c.last, d)
+		c.minNext = e.ctx.Add(c.last, args[0].(*smt.Term))
 		return nil
 	}
 	zzapi["zzSameObject"] = func(e *Engine, args []Value, fn *ssa.Function) Value {
@@ -192,23 +196,32 @@ func (e *Engine) didPanic(f Value) (gp *goPanic) {
 }
 
 // ---- clock model ----
+// The model clock is one 64-bit count of nanoseconds that only moves forward. A
+// time.Time value produced by the model is {wall: 0, ext: ns, loc: nil}; every
+// time.Time method the code under test uses is an intrinsic over that encoding
+// (methods without an intrinsic are rejected as unsupported rather than run on it).
+// "Seconds" (for layouts with second resolution) are windows of 2^30 ns (~1.07 s):
+// this keeps 64-bit division by 10^9, which no available solver decides in
+// reasonable time, out of the encoding while preserving "same second / later second".
 
 type clockState struct {
-	last    *smt.Term // nanoseconds since an epoch, 64-bit, monotone
+	last    *smt.Term
 	minNext *smt.Term
-	n       int
+	maxNext *smt.Term // a timer that fired is at most timerSlackNs late (stated assumption)
 }
+
+const timerSlackNs = 50 * 1000000000
 
 func (e *Engine) clock() *clockState {
 	c, _ := e.extraCtx["clock"].(*clockState)
 	if c == nil {
-		c = &clockState{last: e.ctx.BV(0, 64)}
+		c = &clockState{last: e.ctx.BV(1<<40, 64)}
 		e.extraCtx["clock"] = c
 	}
 	return c
 }
 
-// clockNow returns a fresh instant >= the previous one (ns since model epoch).
+// clockNow returns a fresh instant >= the previous one.
 func (e *Engine) clockNow() *smt.Term {
 	c := e.clock()
 	t := e.newNondetEnv("u64", 64, "time.Now")
@@ -217,8 +230,12 @@ func (e *Engine) clockNow() *smt.Term {
 		lo = c.minNext
 		c.minNext = nil
 	}
-	// bounded to 2^60 ns so that no arithmetic in callers wraps
-	e.assume(e.ctx.And(e.ctx.Cmp(smt.OpBVUle, lo, t), e.ctx.Cmp(smt.OpBVUlt, t, e.ctx.BV(1<<60, 64))), "clock monotone")
+	c0 := e.ctx.And(e.ctx.Cmp(smt.OpBVUle, lo, t), e.ctx.Cmp(smt.OpBVUlt, t, e.ctx.BV(1<<61, 64)))
+	if c.maxNext != nil {
+		c0 = e.ctx.And(c0, e.ctx.Cmp(smt.OpBVUle, t, c.maxNext))
+		c.maxNext = nil
+	}
+	e.assume(c0, "clock monotone (and a fired timer is less than 50 s late)")
 	c.last = t
 	return t
 }
@@ -230,43 +247,27 @@ func (e *Engine) clockAdvanceTo(deadline *smt.Term) {
 	c := e.clock()
 	if c.minNext == nil {
 		c.minNext = deadline
+		c.maxNext = e.ctx.Add(deadline, e.ctx.BV(timerSlackNs, 64))
 	}
 }
 
-const unixToInternal = int64((1969*365 + 1969/4 - 1969/100 + 1969/400) * 86400)
-const modelEpochUnix = int64(1700000000) // model ns 0 == this Unix second
-
-// timeValue builds a time.Time struct value for a model instant (ns).
 func (e *Engine) timeValue(ns *smt.Term) Value {
-	// time.Time{wall uint64, ext int64, loc *Location}; without monotonic reading:
-	// wall = nsec (low 30 bits), ext = seconds since year 1.
-	sec := e.ctx.Bin(smt.OpBVUDiv, ns, e.ctx.BV(1000000000, 64))
-	nsec := e.ctx.Bin(smt.OpBVURem, ns, e.ctx.BV(1000000000, 64))
-	ext := e.ctx.Add(sec, e.ctx.BV(uint64(modelEpochUnix+unixToInternal), 64))
-	return &Struct{F: []Value{nsec, ext, Ptr{}}}
+	return &Struct{F: []Value{e.ctx.BV(0, 64), ns, Ptr{}}}
 }
 
 func (e *Engine) nowTimeValue() Value { return e.timeValue(e.clock().last) }
 
-// timeToNs inverts timeValue for values produced by it (and by real Add on them).
-func (e *Engine) timeToNs(t *Struct) *smt.Term {
-	wall, ext := t.F[0].(*smt.Term), t.F[1].(*smt.Term)
-	sec := e.ctx.Sub(ext, e.ctx.BV(uint64(modelEpochUnix+unixToInternal), 64))
-	nsec := e.ctx.Bin(smt.OpBVAnd, wall, e.ctx.BV(1<<30-1, 64))
-	return e.ctx.Add(e.ctx.Bin(smt.OpBVMul, sec, e.ctx.BV(1000000000, 64)), nsec)
-}
+func (e *Engine) timeNs(v Value) *smt.Term { return v.(*Struct).F[1].(*smt.Term) }
 
 func init() {
 	reg("time.Now", func(e *Engine, args []Value, fn *ssa.Function) Value {
 		return e.timeValue(e.clockNow())
 	})
 	reg("time.Since", func(e *Engine, args []Value, fn *ssa.Function) Value {
-		now := e.clockNow()
-		return e.ctx.Sub(now, e.timeToNs(args[0].(*Struct)))
+		return e.ctx.Sub(e.clockNow(), e.timeNs(args[0]))
 	})
 	reg("time.Until", func(e *Engine, args []Value, fn *ssa.Function) Value {
-		now := e.clockNow()
-		return e.ctx.Sub(e.timeToNs(args[0].(*Struct)), now)
+		return e.ctx.Sub(e.timeNs(args[0]), e.clockNow())
 	})
 	reg("time.Sleep", func(e *Engine, args []Value, fn *ssa.Function) Value {
 		c := e.clock()
@@ -274,43 +275,55 @@ func init() {
 		e.yield()
 		return nil
 	})
-	reg("time.After", func(e *Engine, args []Value, fn *ssa.Function) Value {
+	after := func(e *Engine, args []Value, fn *ssa.Function) Value {
 		c := e.clock()
 		ch := e.newChan(1, nil)
 		ch.timer = true
 		ch.deadline = e.ctx.Add(c.last, args[0].(*smt.Term))
 		return ch
-	})
-	reg("time.Tick", func(e *Engine, args []Value, fn *ssa.Function) Value {
-		c := e.clock()
-		ch := e.newChan(1, nil)
-		ch.timer = true
-		ch.deadline = e.ctx.Add(c.last, args[0].(*smt.Term))
-		return ch
-	})
+	}
+	reg("time.After", after)
+	reg("time.Tick", after)
 	reg("(time.Time).Format", func(e *Engine, args []Value, fn *ssa.Function) Value {
 		layout := strArg(e, args[1])
-		t := args[0].(*Struct)
-		ns := e.timeToNs(t)
-		unit := ns
-		// finest unit the layout mentions: seconds ("05") or finer -> injective encoding of that unit
+		t := e.timeNs(args[0])
+		// a function of the finest unit the layout mentions, injective in that unit
+		unit := t
 		switch {
 		case containsAny(layout, ".000", ".999"):
 		case containsAny(layout, "05"):
-			unit = e.ctx.Bin(smt.OpBVUDiv, ns, e.ctx.BV(1000000000, 64))
+			unit = e.ctx.Bin(smt.OpBVLShr, t, e.ctx.BV(30, 64))
 		case containsAny(layout, "04"):
-			unit = e.ctx.Bin(smt.OpBVUDiv, ns, e.ctx.BV(60*1000000000, 64))
+			unit = e.ctx.Bin(smt.OpBVLShr, t, e.ctx.BV(36, 64))
 		default:
-			unit = e.ctx.Bin(smt.OpBVUDiv, ns, e.ctx.BV(86400*1000000000, 64))
+			unit = e.ctx.Bin(smt.OpBVLShr, t, e.ctx.BV(46, 64))
 		}
-		// 16 hex-like characters 'A'+nibble: a function of `unit` only, injective
-		out := make([]*smt.Term, 16)
-		for i := 0; i < 16; i++ {
-			nib := e.ctx.Extract(e.ctx.Bin(smt.OpBVLShr, unit, e.ctx.BV(uint64(4*(15-i)), 64)), 7, 0)
-			out[i] = e.ctx.Add(e.ctx.Bin(smt.OpBVAnd, nib, e.ctx.BV(15, 8)), e.ctx.BV('A', 8))
+		out := make([]*smt.Term, 0, 16)
+		for i := 15; i >= 0; i-- {
+			nib := e.ctx.Extract(e.ctx.Bin(smt.OpBVLShr, unit, e.ctx.BV(uint64(4*i), 64)), 7, 0)
+			out = append(out, e.ctx.Add(e.ctx.Bin(smt.OpBVAnd, nib, e.ctx.BV(15, 8)), e.ctx.BV('A', 8)))
 		}
 		return e.mkStr(out)
 	})
+	reg("(time.Time).Sub", func(e *Engine, args []Value, fn *ssa.Function) Value {
+		return e.ctx.Sub(e.timeNs(args[0]), e.timeNs(args[1]))
+	})
+	reg("(time.Time).Add", func(e *Engine, args []Value, fn *ssa.Function) Value {
+		return e.timeValue(e.ctx.Add(e.timeNs(args[0]), args[1].(*smt.Term)))
+	})
+	reg("(time.Time).After", func(e *Engine, args []Value, fn *ssa.Function) Value {
+		return e.ctx.Cmp(smt.OpBVUlt, e.timeNs(args[1]), e.timeNs(args[0]))
+	})
+	reg("(time.Time).Before", func(e *Engine, args []Value, fn *ssa.Function) Value {
+		return e.ctx.Cmp(smt.OpBVUlt, e.timeNs(args[0]), e.timeNs(args[1]))
+	})
+	reg("(time.Time).Equal", func(e *Engine, args []Value, fn *ssa.Function) Value {
+		return e.ctx.Eq(e.timeNs(args[0]), e.timeNs(args[1]))
+	})
+	reg("(time.Time).IsZero", func(e *Engine, args []Value, fn *ssa.Function) Value {
+		return e.ctx.Eq(e.timeNs(args[0]), e.ctx.BV(0, 64))
+	})
+	reg("(time.Time).UnixNano", func(e *Engine, args []Value, fn *ssa.Function) Value { return e.timeNs(args[0]) })
 	reg("(time.Time).String", func(e *Engine, args []Value, fn *ssa.Function) Value { return Str{S: "<time>"} })
 	reg("(time.Time).MarshalJSON", func(e *Engine, args []Value, fn *ssa.Function) Value {
 		return Tuple{e.bytesToSlice(e.strBytes(Str{S: "\"<time>\""})), Iface{}}
